@@ -27,14 +27,21 @@ def _ddmin(items, test, budget):
     return items
 
 
-def shrink(mod, prop, sub, case, kidx, max_evals=400):
+def shrink(mod, prop, sub, case, kidx, max_evals=400, wall_s=90, case_limit_s=10):
+    """Bounded by evaluations and by wall clock; a candidate that runs longer than case_limit_s counts as
+    'does not fail' (a hang in the changed code must not stall the report of the violation)."""
+    import time
     from .runner import Recorder, run_one
     from . import findings as _f
+    t_end = time.time() + wall_s
 
     def failing(c):
+        if time.time() > t_end:
+            budget[0] = 0
+            return None
         rec = Recorder(prop, kidx, _f.Index(_f.load()[0]))
         try:
-            fails = run_one(mod, c, rec)
+            fails = run_one(mod, c, rec, limit=case_limit_s)
         except Exception:
             return None
         for s, d in fails:
@@ -42,9 +49,9 @@ def shrink(mod, prop, sub, case, kidx, max_evals=400):
                 return d if d is not None else ''
         return None
 
+    budget = [max_evals]
     if failing(case) is None:
         return None, None
-    budget = [max_evals]
     cur = copy.deepcopy(case)
     keys = getattr(mod, 'SHRINK_KEYS', ['ops'])
     minlen = getattr(mod, 'SHRINK_MIN', {})
